@@ -177,7 +177,29 @@ _BLOCKS = None
 _META = None
 
 
+_CAPPED = [False]
+
+
+def cap_memory():
+    """Address-space cap for the processes that run the code under test (workers, replay) - not for the parent, which only merges
+    results: an attacker-sized allocation in the code under test (e.g. a list pre-sized from a stack-supplied count) fails fast with
+    MemoryError - which the checks judge - instead of filling the machine until the exploration times out without a verdict.
+    Far above what any case needs itself."""
+    if _CAPPED[0]:
+        return
+    _CAPPED[0] = True
+    try:
+        import resource
+        cap = int(float(os.environ.get('VERIF_MEM_GB', '8')) * (1 << 30))
+        soft, hard = resource.getrlimit(resource.RLIMIT_AS)
+        if hard == resource.RLIM_INFINITY or cap <= hard:
+            resource.setrlimit(resource.RLIMIT_AS, (cap, hard))
+    except (ValueError, OSError):
+        pass
+
+
 def _run_shard(arg):
+    cap_memory()
     bi, shard, nshards = arg
     pid, tier, seed = _META
     block = _BLOCKS[bi]
@@ -426,6 +448,7 @@ def replay(pid, path, blocks_for):
         return 2
     ctx = Ctx(pid, tier, seed, blk.name)
     ctx.case = dec(r['case'])
+    cap_memory()
     signal.signal(signal.SIGPROF, _on_alarm)
     try:
         if blk.backstop:
